@@ -377,7 +377,12 @@ func roundTripAll(ctx context.Context, fd protoreflect.FileDescriptor, siblings 
 	files[fd.Path()] = txt1
 	parsed, err := tool.ParseProto(ctx, files, []string{fd.Path()})
 	if err != nil {
-		return txt1, nil, "", []rtFailure{{Sig: "printed text does not parse/link: " + failureClass(err.Error()), Clause: "parsing and linking the printed text yields a descriptor", Got: trim(err.Error(), 300)}}
+		class := failureClass(err.Error())
+		if strings.Contains(err.Error(), "camel-case name") {
+			// enum options that differ only in case: the compiler accepts them, no proto parser does (NOTICE-4)
+			class = "camel-case name conflict of enum values (options that differ only in case)"
+		}
+		return txt1, nil, "", []rtFailure{{Sig: "printed text does not parse/link: " + class, Clause: "parsing and linking the printed text yields a descriptor", Got: trim(err.Error(), 300)}}
 	}
 	for _, f := range parsed {
 		if f.Path() == fd.Path() {
